@@ -181,6 +181,12 @@ def run_case(case):
                         V.append(viol("C14:mean_prediction:raises-%s" % type(e).__name__, "mean_prediction raised %r p=%r kw=%r" % (e, pv, wkw),
                                       exp, repr(e), snippet("mean_prediction", y, pv, wkw)))
                         continue
+                    if w is not None and np.ndim(r) == 0:
+                        out["evals"] += 1
+                        r2 = fm.mean_prediction(yy, conv(pv), sample_weight=conv([0.5 * v for v in w]))
+                        if not close(r2, exp):
+                            V.append(viol("C14:mean_prediction:value", "mean_prediction with weights %r = %r expected %r p=%r" % ([0.5 * v for v in w], r2, exp, pv),
+                                          exp, float(r2), snippet("mean_prediction", y, pv, {"sample_weight": [0.5 * v for v in w]})))
                     if np.ndim(r) != 0:
                         V.append(viol("C14:mean_prediction:nonscalar", "mean_prediction returned non-scalar %r" % (r,),
                                       exp, repr(r), snippet("mean_prediction", y, pv, wkw)))
